@@ -788,6 +788,16 @@ func (x *Exec) specQuant(env *SpecEnv, q EQuant) SpecVal {
 		vars = append(vars, t)
 		cur = cur.bind(v.Name, SpecVal{T: t, Ty: ty})
 	}
+	// explicit triggers: forall x: T :: withtrig(pat1, pat2, ..., body) - each
+	// pattern is a separate single-term trigger (used to avoid matching loops)
+	if wc, ok := q.Body.(ECall); ok && wc.Fn == "withtrig" && len(wc.Args) >= 2 && q.Forall {
+		var pats [][]Term
+		for _, pe := range wc.Args[:len(wc.Args)-1] {
+			pats = append(pats, []Term{x.specTerm(cur, pe)})
+		}
+		body := x.specBool(cur, wc.Args[len(wc.Args)-1])
+		return SpecVal{T: Forall(vars, body, pats...)}
+	}
 	body := x.specBool(cur, q.Body)
 	if q.Forall {
 		if len(vars) == 1 {
